@@ -36,7 +36,7 @@ CONSTANTS N,            \* files 0..N-1
 
 Files == 0..(N - 1)
 NoFile == N
-Unset == [guard |-> "unset", dirs |-> <<>>]
+Unset == [guard |-> "unset", dirs |-> <<>>, open |-> FALSE]
 Range(s) == {s[i] : i \in DOMAIN s}
 
 VARIABLES L, roots, pre, pending, content, stack, read, reported, lines, macros, onced
@@ -59,9 +59,10 @@ DirectiveChoices(f) ==
   {d \in [name : Names, form : Forms, active : Actives] :
      IF d.active THEN Resolve(f, d) # NoFile /\ Resolve(f, d) > f
      ELSE d.form = FirstForm /\ d.name \in DeadNames}   \* the form of a dead directive is irrelevant
-ContentChoices(f) ==
-  [guard : IF f = 0 THEN {"none"} ELSE Guards,
-   dirs : UNION {[1..k -> DirectiveChoices(f)] : k \in 0..MaxFan}]
+(* the guard kind is chosen when a file is entered for the first time; its directives are    *)
+(* chosen one by one while the preprocessor walks through it (the file stays `open` until    *)
+(* its end is reached for the first time)                                                    *)
+FreshContent(f) == {[guard |-> g, dirs |-> <<>>, open |-> TRUE] : g \in (IF f = 0 THEN {"none"} ELSE Guards)}
 
 -----------------------------------------------------------------------------
 Count(s, x) == Cardinality({i \in DOMAIN s : s[i] = x})
@@ -73,22 +74,22 @@ Init ==
   /\ reported = IF Variant = "noInputs" THEN {} ELSE Range(roots)     \* BindgenContext::new
   /\ lines = [f \in Files |-> Count(roots, f)]                       \* header_file callbacks
 
-(* the preprocessor opens file f; st is the stack to continue with          *)
-EnterWith(f, c, st) ==
+(* the preprocessor opens file f; st is the stack to continue with, base the contents so far *)
+EnterWith(base, f, c, st) ==
   /\ read' = read \cup {f}
-  /\ content' = [content EXCEPT ![f] = c]
+  /\ content' = [base EXCEPT ![f] = c]
   /\ IF (c.guard = "once" /\ f \in onced) \/ (c.guard = "guard" /\ f \in macros)
      THEN stack' = st /\ UNCHANGED <<macros, onced>>      \* body skipped
      ELSE /\ stack' = Append(st, [file |-> f, pc |-> 1])
           /\ onced' = IF c.guard = "once" THEN onced \cup {f} ELSE onced
           /\ macros' = IF c.guard = "guard" THEN macros \cup {f} ELSE macros
-Enter(f, st) == IF content[f] = Unset THEN \E c \in ContentChoices(f) : EnterWith(f, c, st)
-                ELSE EnterWith(f, content[f], st)
+Enter(base, f, st) == IF base[f] = Unset THEN \E c \in FreshContent(f) : EnterWith(base, f, c, st)
+                      ELSE EnterWith(base, f, base[f], st)
 
 NextRoot ==
   /\ stack = <<>> /\ pending # <<>>
   /\ pending' = Tail(pending)
-  /\ Enter(Head(pending), <<>>)
+  /\ Enter(content, Head(pending), <<>>)
   /\ UNCHANGED <<L, roots, pre, reported, lines>>
 
 (* bindgen sees an InclusionDirective cursor whose included file is t       *)
@@ -103,14 +104,19 @@ Step ==
          f == top.file
          ds == content[f].dirs
          rest == SubSeq(stack, 1, Len(stack) - 1)
-     IN IF top.pc > Len(ds)
-        THEN stack' = rest /\ UNCHANGED <<content, read, reported, lines, macros, onced>>   \* Leave
-        ELSE LET d == ds[top.pc]
+         atEnd == top.pc > Len(ds)
+     IN \/ /\ atEnd                                                    \* Leave
+           /\ stack' = rest
+           /\ content' = [content EXCEPT ![f].open = FALSE]
+           /\ UNCHANGED <<read, reported, lines, macros, onced>>
+        \/ \E d \in (IF ~atEnd THEN {ds[top.pc]}
+                      ELSE IF content[f].open /\ Len(ds) < MaxFan THEN DirectiveChoices(f) ELSE {}) :
+             LET base == IF atEnd THEN [content EXCEPT ![f].dirs = Append(@, d)] ELSE content
                  st == Append(rest, [top EXCEPT !.pc = @ + 1])
                  t == Resolve(f, d)
              IN IF d.active
-                THEN Seen(t) /\ Enter(t, st)
-                ELSE /\ stack' = st /\ UNCHANGED <<content, read, macros, onced>>
+                THEN Seen(t) /\ Enter(base, t, st)
+                ELSE /\ stack' = st /\ content' = base /\ UNCHANGED <<read, macros, onced>>
                      /\ IF Variant = "allDirectives" /\ t # NoFile THEN Seen(t)
                         ELSE UNCHANGED <<reported, lines>>
   /\ UNCHANGED <<L, roots, pre, pending>>
